@@ -46,7 +46,7 @@ Qed.
 (* ---- the same for replicas of histories with bounded merges and re-opened logs ([owf],
    Proofs/POpen.v): complete, duplicate free, sorted, and every entry after those of its predecessors
    that the log holds (such a log may lack predecessors: it is causally open) *)
-From IpfsLog Require Import Proofs.POpen.
+From IpfsLog Require Import Proofs.PValues Proofs.POpen.
 Theorem C03_values_of_reopened_logs ops r l :
   owf ops -> hist_bound ops < two63 -> nth_error (s_logs (run ops)) r = Some l -> order_total l ->
   exists v, values l = Some v /\
@@ -56,6 +56,25 @@ Theorem C03_values_of_reopened_logs ops r l :
     (forall l1 e l2, oslice v = l1 ++ e :: l2 ->
        forall n p, In n (e_next e) -> In (n, p) (l_entries l) -> In p l1).
 Proof. intros W Hlen L OT. exact (ovalues_linearise ops r l W L Hlen OT). Qed.
+
+(* ... and it still depends only on WHICH entries the log holds: two replicas of such a history holding the
+   same entries - e.g. a replica and the log a complete reload of it returns, whose entries arrive in fetch
+   order (C09_reloaded_log_is_a_replica) - linearise identically under a total ordering *)
+Theorem C03_depends_only_on_entries_in_every_history ops r1 r2 l1 l2 :
+  owf ops -> hist_bound ops < two63 ->
+  nth_error (s_logs (run ops)) r1 = Some l1 -> nth_error (s_logs (run ops)) r2 = Some l2 ->
+  order_total l1 -> order_total l2 ->
+  (forall k e, In (k, e) (l_entries l1) <-> In (k, e) (l_entries l2)) ->
+  values l1 = values l2.
+Proof.
+  intros W Hlen L1 L2 O1 O2 Same. destruct (osinv_run ops W) as [UO IL].
+  pose proof (otimes_in_range ops r1 l1 W Hlen L1) as T1. pose proof (otimes_in_range ops r2 l2 W Hlen L2) as T2.
+  destruct (PValues.pvalues_spec _ (lift l1) UO (IL r1 l1 L1) T1 O1) as [v1 [V1 [A1 [B1 [_ D1]]]]].
+  destruct (PValues.pvalues_spec _ (lift l2) UO (IL r2 l2 L2) T2 O2) as [v2 [V2 [A2 [B2 [_ D2]]]]].
+  change (values (lift l1)) with (values l1) in V1. change (values (lift l2)) with (values l2) in V2.
+  rewrite V1, V2. f_equal.
+  exact (PValues.pvalues_unique _ (lift l1) (lift l2) v1 v2 UO (IL r1 l1 L1) (IL r2 l2 L2) T1 Same A1 A2 B1 B2 D1 D2).
+Qed.
 
 From IpfsLog Require Import Model.ExampleHist Proofs.WfBool.
 Example C03_nonvacuous :
@@ -93,3 +112,4 @@ Print Assumptions C03_nonvacuous.
 Print Assumptions C03_ties_are_excluded.
 Print Assumptions C03_seeded_clocks_nonvacuous.
 Print Assumptions C03_values_of_reopened_logs.
+Print Assumptions C03_depends_only_on_entries_in_every_history.
